@@ -243,6 +243,19 @@ def touched_paths(ev):
     return []
 
 
+def stale_index_step(rec):
+    """first step at which a directory is removed while an item below it has registered external
+    dependencies (the input-side condition of the recorded class F3)"""
+    for k in range(1, len(rec["steps"])):
+        ev = rec["steps"][k]["ev"]
+        prev = rec["steps"][k - 1].get("state")
+        if ev.startswith("D:") and prev:
+            d = ev[2:]
+            if any(it["deps"] and (it["source"] + "/").startswith(d + "/") for it in prev["items"]):
+                return k
+    return None
+
+
 def configuration_reset(prev, step):
     """did this process see a different configuration hash than the previous one (WorkerTree::reset)?"""
     before = (prev.get("state") or {}).get("hash")
@@ -481,6 +494,7 @@ def run(ctx):
                       key="config-hash")
 
     model_bad = []
+    tolerated_after_stale_index = 0
     nontrivial = {}
     n_points = 0
     n_in_scope = 0
@@ -503,7 +517,16 @@ def run(ctx):
             raise C.CheckBroken("the two evaluations of the theorem's hypotheses disagree on %r: %s vs %s"
                                 % (rec["h"], scopes[-1], full_scope))
         if model_diag:
-            model_bad.append((rec["h"], model_diag))
+            # once remove_source on a directory has left a stale node index behind (recorded class F3),
+            # which later item re-uses that index depends on the hash-map order of the next directory
+            # removal: the occupant of the stale entry, and a spurious restart through it, are not
+            # determined by the history.  Files and queued removals still are.
+            g = re.match(r"group (\d+): items=\w+ ext=\w+ remove_files=ok out=ok $", model_diag)
+            stale_from = stale_index_step(rec)
+            if g and stale_from is not None and int(g.group(1)) > stale_from:
+                tolerated_after_stale_index += 1
+            else:
+                model_bad.append((rec["h"], model_diag))
         # non-trivial: some later process reprocessed or removed something
         trivial = True
         for a, b in zip(rec["steps"], rec["steps"][1:]):
@@ -616,7 +639,7 @@ def run(ctx):
     for name, count in by_stream.items():
         ctx.stream("WorkerTree state and output tree after every event: model vs Rust (%s)" % name, count,
                    nontrivial.get(name, 0), samples if name.startswith("exhaustive, reduced") else [],
-                   mismatches=len(model_bad))
+                   mismatches=len(model_bad), index_reuse_after_stale_index_not_compared=tolerated_after_stale_index)
     ctx.stream("output tree after every process vs a fresh darklua_core::process (oracle)", n_points, n_in_scope, [],
                process_points_inside_the_hypotheses=n_in_scope, known_class_hits=class_counts)
     ctx.stream("hypotheses about xform on real results (frame, deps exist, deps outside output)", n_x, n_groups, [],
